@@ -196,6 +196,9 @@ def run(ctx):
         _replay_cfg(ctx, "MC_DataImpl_C18EmitExtra", limit=3000)      # other fields as cache keys (two quantile levels that agree to two decimals)
         # ensemble members as fields; before every request a quantile that has to be derived from the members is asked for as well
         _replay_cfg(ctx, "MC_DataImpl_C18EmitEns", limit=1500, perturb="quantile-from-ensemble")
+        # probabilities the files do not store (derived from the members), files whose members are missing at different cells: every ordered
+        # pair of requests, so also "first file, then second file"
+        _replay_cfg(ctx, "MC_DataImpl_C18EmitDerived", limit=2500)
         _random_sequences(ctx, "C18Mix", 32, 10, 8)
         _repeat_commands(ctx)
         _repository_tests(ctx)
@@ -214,6 +217,7 @@ def run(ctx):
         _replay_cfg(ctx, "MC_DataImpl_C18EmitAxes", record=2000)
         _replay_cfg(ctx, "MC_DataImpl_C18EmitExtra")
         _replay_cfg(ctx, "MC_DataImpl_C18EmitEns", perturb="quantile-from-ensemble")
+        _replay_cfg(ctx, "MC_DataImpl_C18EmitDerived")
         _random_sequences(ctx, "C18Mix", 32, 60, 12)
         _random_sequences(ctx, "C18Quick", 16, 60, 12)
         _repeat_commands(ctx)
